@@ -510,6 +510,12 @@ def validate_block_summary_in_coinstate(
 
 def validate_block_in_coinstate(block: Block, coinstate: CoinState) -> None:
     if block.height <= MAX_KNOWN_HASH_HEIGHT:
+        # the checkpoint shortcut below is for blocks that *are* at that height in the chain, not for blocks that merely
+        # declare such a height while building on some later block.
+        if block.previous_block_hash in coinstate.block_by_hash and \
+                block.height != coinstate.block_by_hash[block.previous_block_hash].height + 1:
+            raise ValidateBlockHeaderError("Block height must be the previous block's height plus one")
+
         if block.height in KNOWN_HASHES:
             if block.hash() != computer(KNOWN_HASHES[block.height]):
                 raise ValidationError("No forks allowed before block %s" % MAX_KNOWN_HASH_HEIGHT)
